@@ -39,7 +39,13 @@ MMDescs == Flatten2([i \in DOMAIN BPairs |-> [t \in 1..3 |->
 BigBc == << <<"bc", <<1, 11>>, <<11, 11>>>>, <<"bc", <<11, 1>>, <<11, 11>>>>, <<"bc", <<1, 12>>, <<11, 12>>>>, <<"bc", <<11, 2>>, <<11, 11, 2>>>>, <<"bc", <<10>>, <<1, 10>>>>,  <<"bc", <<1, 17>>, <<2, 17>>>>, <<"bc", <<9, 1>>, <<9, 2>>>>, <<"bc", <<1>>, <<19>>>>,  <<"bc", <<4, 1>>, <<4, 5>>>>, <<"bc", <<1, 5>>, <<4, 5>>>>, <<"bc", <<5>>, <<2, 5>>>>, <<"bc", <<4, 1>>, <<2, 4, 5>>>>, <<"bc", <<1, 1>>, <<6, 4>>>> >>
 BigAr == << <<"ar", "add", <<1, 11>>, <<11, 11>>, <<TRUE, TRUE>>>>, <<"ar", "mul", <<11, 1>>, <<11, 11>>, <<TRUE, FALSE>>>>, <<"ar", "sub", <<11, 11>>, <<11, 1>>, <<TRUE, TRUE>>>>,
            <<"ar", "div", <<12, 1>>, <<1, 11>>, <<TRUE, TRUE>>>> >>
-All == BigAr \o BigBc \o BcastDescs \o (IF Thorough THEN ArithAll ELSE ArithDescs) \o DotDescs \o MMDescs
+(* an expansion of an expansion (explicit then explicit, explicit then implicit): the INTERMEDIATE tensor's gradient is the *)
+(* sum over its own copies; and an explicit Broadcast result used by two consumers                                        *)
+ChainDescs == << <<"chain", <<3>>, <<2, 3>>, <<2, 2, 3>>>>, <<"chain", <<1, 2>>, <<3, 2>>, <<2, 3, 2>>>>, <<"chain", <<2, 1>>, <<2, 3>>, <<4, 2, 3>>>>,
+                 <<"chain", <<3>>, <<1, 3>>, <<1, 1, 3>>>>, <<"chain", <<>>, <<2>>, <<3, 2>>>>,
+                 <<"chainadd", <<3>>, <<2, 3>>, <<2, 2, 3>>>>, <<"chainadd", <<2, 1>>, <<2, 3>>, <<2, 2, 3>>>>, <<"chainadd", <<3>>, <<1, 3>>, <<4, 1, 3>>>>,
+                 <<"fan", <<3>>, <<2, 3>>>>, <<"fan", <<1, 2>>, <<3, 2>>>>, <<"fan", <<3>>, <<1, 3>>>>, <<"fan", <<2, 1>>, <<3, 2, 2>>>> >>
+All == ChainDescs \o BigAr \o BigBc \o BcastDescs \o (IF Thorough THEN ArithAll ELSE ArithDescs) \o DotDescs \o MMDescs
 Descs == MyCases(All)
 
 WithG(name, ins, doms, op, par, ydims) ==
@@ -51,7 +57,16 @@ WithG(name, ins, doms, op, par, ydims) ==
 YDims(op, par, dimsSeq) == OpApply(op, par, [k \in DOMAIN dimsSeq |-> SymT("t", dimsSeq[k])]).dims
 
 Build(d) ==
-  CASE d[1] = "bc" -> WithG("broadcast", <<In("a", d[2], TRUE)>>, <<"any">>, "broadcast", [shape |-> d[3]], d[3])
+  CASE d[1] = "chain" ->
+         MkCaseD("c07", "broadcast-of-broadcast", <<In("a", d[2], TRUE), In("g", d[4], FALSE)>>, <<"any", "any">>,
+                 <<Ins("broadcast", [shape |-> d[3]], <<1>>), Ins("broadcast", [shape |-> d[4]], <<3>>), Ins("mul", NoPar, <<4, 2>>)>>, <<3, 4>>, 5, FALSE)
+    [] d[1] = "chainadd" ->
+         MkCaseD("c07", "broadcast-then-add", <<In("a", d[2], TRUE), In("w", d[4], FALSE), In("g", d[4], FALSE)>>, <<"any", "any", "any">>,
+                 <<Ins("broadcast", [shape |-> d[3]], <<1>>), Ins("add", NoPar, <<4, 2>>), Ins("mul", NoPar, <<5, 3>>)>>, <<4, 5>>, 6, FALSE)
+    [] d[1] = "fan" ->
+         MkCaseD("c07", "broadcast-two-consumers", <<In("a", d[2], TRUE), In("g", d[3], FALSE), In("h", d[3], FALSE)>>, <<"any", "any", "any">>,
+                 <<Ins("broadcast", [shape |-> d[3]], <<1>>), Ins("mul", NoPar, <<4, 2>>), Ins("mul", NoPar, <<4, 3>>), Ins("add", NoPar, <<5, 6>>)>>, <<4, 7>>, 7, FALSE)
+    [] d[1] = "bc" -> WithG("broadcast", <<In("a", d[2], TRUE)>>, <<"any">>, "broadcast", [shape |-> d[3]], d[3])
     [] d[1] = "ar" -> WithG(d[2], <<In("a", d[3], d[5][1]), In("b", d[4], d[5][2])>>,
                             IF d[2] = "div" THEN <<"any", "nz">> ELSE <<"any", "any">>,
                             d[2], NoPar, YDims(d[2], NoPar, <<d[3], d[4]>>))
